@@ -12,11 +12,11 @@ RULE = ("(a) superposition: placed scenes (plane, Gaussian, dipole, magnetic dip
         "common factor g; (b) model tie: per-step correspondence of the Coq model against forward() on a scene with sources and CPML")
 ASSUMPTIONS = ["source injections are additive oracle arrays in the model", "superposition itself is measured between implementation runs (tolerance 1e-10 relative)"]
 TRUSTED = ["correspondence harness"]
-LEVEL_TEXT = ("Theorem (every PML-free scene of the model, any number of steps): forward is linear in (E, H, source injections) cell by cell. "
-              "Scenes with absorbing layers, detector records and the quadratic scaling clause are decided by the implementation predicate; the model is "
-              "tied to forward() by per-step correspondence including CPML.")
-LEVEL_NOTE = "PARTIAL: CPML psi-recursion linearity and detector-record linearity are not Coq theorems (psi update is visibly linear in the model; measured on the implementation)."
-TECHNIQUE = "Coq proof (pointwise ring identities lifted through ghost reads) + differential superposition runs"
+LEVEL_TEXT = ("Theorem (every scene of the model incl. any list of CPML layers, any number of steps): forward is linear in (E, H, psi accumulators, source "
+              "injections) cell by cell. Detector records (linear: field/phasor; quadratic: energy/Poynting) are decided by the implementation predicate; the "
+              "model is tied to forward() by per-step correspondence including CPML.")
+LEVEL_NOTE = "Detector-record linearity / quadratic scaling is measured on the implementation, not proved; sources are additive oracles whose amplitude factor scales the injection."
+TECHNIQUE = "Coq proof (pointwise ring identities lifted through ghost reads and the CPML loop) + differential superposition runs"
 QUAD = ["energy", "poynting"]
 
 
